@@ -53,6 +53,14 @@ def gen_random(rng, n, univ=3):
             ops.append(f"remove k={rng.randrange(univ)}")
         elif a == "dropc" and calls:
             ops.append(f"dropc c={rng.choice(list(calls))}")
+    if rng.random() < 0.2:
+        # the runtime is dropped, possibly right after a task was spawned and before its first poll
+        if rng.random() < 0.6:
+            k = rng.randrange(univ)
+            o, r = rng.choice([(0, 1), (1, 0), (1, 1)])
+            ops.append(f"call c={c} k={k} opt={o} req={r} nopoll=1"); calls[c] = (k, o, r); c += 1
+        ops.append("kill")
+        return ops + ["# drain"]
     return ops + drain(calls)
 
 
@@ -100,6 +108,8 @@ def redrain(ops):
         if l.startswith("# drain"):
             break
         body.append(l)
+    if "kill" in body:
+        return body, body + ["# drain"]
     calls = {}
     for l in body:
         if l.startswith("call "):
@@ -186,6 +196,9 @@ def oracle_c06(lines):
             dropped.add(kv["c"])
         if name == "insert":
             values.setdefault(kv["k"], set()).add(kv["v"])
+        if name == "kill":
+            for k0 in set(v[0] for v in calls.values()):
+                errs.setdefault(k0, set()).add("X1")
         if name == "req" and kv["f"] in calls:
             k = calls[kv["f"]][0]
             if kv["res"] == "ok":
@@ -236,6 +249,7 @@ def oracle_c06(lines):
         prev_callers, prev_mem = callers, mem
     if lines:
         stuck = [c for c, r in prev_callers.items() if r == "P"]
+        # (after `kill` every task is gone, so nobody may still be waiting either)
         if stuck:
             return (len(lines) - 1, f"callers {stuck} never answered although every fetch was resolved (hang)")
     return None
